@@ -53,6 +53,21 @@ def tagof(v):
     return [_prim(v)]
 
 
+HM = 1000003
+_TAGIDX = {'int': 1, 'float': 2, 'bool': 3, 'str': 4, 'none': 5, 'fn': 6, 'list': 7, 'tuple': 8}
+
+
+def hash_events(ev):
+    """The rolling hash HashEvs of TypeSem.tla."""
+    h = 0
+    for o, t in ev:
+        c = 0
+        for x in t:
+            c = (c * 11 + _TAGIDX.get(x, 9)) % HM
+        h = (h * 31 + o * 13 + c) % HM
+    return h
+
+
 class Run:
     def __init__(self, dec):
         self.dec = dec
